@@ -213,6 +213,11 @@ def make_monitor(kind, tmpdir=None, label='m'):
     import mystic.monitors as mm
     if kind in (None, 'default'):
         return None
+    if '*' in kind:             # 'Logging*-1': a monitor with a cost multiplier k
+        kind, k = kind.split('*')
+        m = make_monitor(kind, tmpdir, label)
+        m.k = float(k) if '.' in k else int(k)
+        return m
     if kind == 'Monitor':
         return mm.Monitor()
     if kind == 'Verbose':
